@@ -21,6 +21,8 @@ func checkC02(c *Check, a *Anchors) {
 	callVarsPassed(c, a, "call-vars-passed")
 	extraThreaded(c, a)
 	freshElements(c, a, "cmd-elements-fresh")
+	sharedWait(c, a)    // a task call that joins a shared execution returns only when that execution has finished
+	c10WriteOrder(c, a) // call variables are applied above every Taskfile / include level, below the callee's own vars
 }
 
 // cmdsLoop finds the loop over t.Cmds in the body closure whose body reaches the command runner.
